@@ -8,11 +8,13 @@
 #include <stdio.h>
 
 /* M1 probe: descriptor construction for one arg_size on the live runtime */
+extern int c04_last_pool;
 void c04_probe_thread_new(size_t asize, FILE *out)
 {
     static aligned_t dummyf_store;
     unsigned char *src = malloc(asize + 16);
     for (size_t i = 0; i < asize + 16; i++) src[i] = (unsigned char)(i * 131 + 7);
+    c04_last_pool = -1;
     qthread_t *t = qthread_thread_new((qthread_f)(void *)&dummyf_store, src, asize, NULL, NULL, 0);
     int where;  /* 0: caller's pointer, 1: inside the descriptor (data[]), 2: separate heap block */
     if (t->arg == (void *)src) where = 0;
@@ -23,8 +25,9 @@ void c04_probe_thread_new(size_t asize, FILE *out)
     unsigned char first = asize ? ((unsigned char *)t->arg)[0] : 0, last = asize ? ((unsigned char *)t->arg)[asize - 1] : 0;
     memset(src, 0xA5, asize + 16);
     int stable = (asize == 0) ? 1 : (((unsigned char *)t->arg)[0] == first && ((unsigned char *)t->arg)[asize - 1] == last);
-    fprintf(out, "P %zu %u %d %d %d %u %u %u\n", asize, (unsigned)t->flags, where, eq, stable,
-            (unsigned)t->thread_state, (unsigned)(t->target_shepherd == NO_SHEPHERD), (unsigned)qlib->qthread_argcopy_size);
+    /* last field: pool the descriptor came from (0 small: no room for an argument copy in data[], 1 big) */
+    fprintf(out, "P %zu %u %d %d %d %u %u %u %d\n", asize, (unsigned)t->flags, where, eq, stable,
+            (unsigned)t->thread_state, (unsigned)(t->target_shepherd == NO_SHEPHERD), (unsigned)qlib->qthread_argcopy_size, c04_last_pool);
     qthread_thread_free(t);
     free(src);
 }
